@@ -676,6 +676,28 @@ func (c *c10) tlvContent(enc []byte, thorough bool) {
 					c.msg(fmt.Sprintf("tlvval-shrink-%d", e), c10cat(pre, c10encRecs(y)))
 				}
 			}
+			// the whole value appended once more as a second, DIFFERENT element (first and
+			// last byte bumped): list-valued records of any element size get two distinct
+			// elements (address lists, nonce maps, id lists), framing canonical
+			if n := len(rs[i].v); n >= 2 && n <= 4096 {
+				el := append([]byte{}, rs[i].v...)
+				if el[0] < 0xff {
+					el[0]++
+				}
+				if el[n-1] < 0xff {
+					el[n-1]++
+				}
+				x := append([]c10rec{}, rs...)
+				x[i].v = append(append([]byte{}, rs[i].v...), el...)
+				c.msg("tlvval-dup-elem", c10cat(pre, c10encRecs(x)))
+			}
+			// the stream ends inside record i: declared length kept, 1 / 2 value bytes missing
+			for _, d := range []int{1, 2} {
+				if len(rs[i].v) >= d {
+					cut := c10cat(pre, c10encRecs(rs[:i+1]))
+					c.msg(fmt.Sprintf("tlvrec-last-short-%d", d), cut[:len(cut)-d])
+				}
+			}
 			// first element dropped / duplicated (count changes, framing valid)
 			if len(rs[i].v) >= 9 {
 				y := append([]c10rec{}, rs...)
